@@ -247,6 +247,59 @@ pub fn long_streams(tier: Tier) -> Space {
     )
 }
 
+/// CLI-BYTES(L): every byte string of length <= L over {LF, CR, '!', 'A', ',', 0x80, NUL}: arbitrary
+/// line STRUCTURE (consecutive newlines, CR only, no final newline, ...).
+pub fn byte_streams(maxlen: u32) -> Space {
+    let alpha: [u8; 7] = [b'\n', b'\r', b'!', b'A', b',', 0x80, 0x00];
+    let a = alpha.len() as u64;
+    let mut starts = Vec::new();
+    let mut total = 0u64;
+    for len in 0..=maxlen {
+        starts.push(total);
+        total += a.pow(len);
+    }
+    Space::new(
+        &format!("CLI-BYTES({})", maxlen),
+        &format!("every byte string of length 0..={} over {{LF, CR, '!', 'A', ',', 0x80, NUL}} as the whole standard input", maxlen),
+        total,
+        move |i, l| {
+            let li = match starts.binary_search(&i) {
+                Ok(x) => x,
+                Err(x) => x - 1,
+            };
+            let mut r = Radix(i - starts[li]);
+            let input: Vec<u8> = (0..li).map(|_| alpha[r.take(a) as usize]).collect();
+            judge_stream(l, &input, "raw bytes");
+        },
+    )
+}
+
+/// Very long single lines (the tool must not depend on a line length limit).
+pub fn long_lines() -> Space {
+    Space::new(
+        "CLI-LONG-LINE",
+        "one line of 10^3, 10^5, 10^6 bytes (garbage / a sentence with an oversized payload), followed by a valid sentence",
+        6,
+        move |i, l| {
+            let n = [1000usize, 100_000, 1_000_000][(i / 2) as usize];
+            let mut input = if i % 2 == 0 {
+                vec![b'x'; n]
+            } else {
+                sentence(1, 1, b"", &vec![b'1'; n], 0)
+            };
+            input.push(b'\n');
+            input.extend_from_slice(&line_kinds()[1].1);
+            input.push(b'\n');
+            judge_stream(l, &input, &format!("one line of {} bytes then a valid sentence", n));
+        },
+    )
+}
+
 pub fn c20(tier: Tier) -> Vec<Space> {
-    vec![streams(if tier == Tier::Quick { 3 } else { 4 }), long_streams(tier)]
+    vec![
+        streams(if tier == Tier::Quick { 3 } else { 4 }),
+        byte_streams(if tier == Tier::Quick { 4 } else { 5 }),
+        long_streams(tier),
+        long_lines(),
+    ]
 }
